@@ -127,6 +127,9 @@ func runDriver(c *vf.Check, dir string, bin string, env []string, jobs any, n in
 		if restarts > 200 {
 			vf.Machinery("driver crashed more than 200 times; last error %v\n%s", werr, vf.Trunc(se.String(), 2000))
 		}
+		if os.Getenv("VERIF_DEBUG") != "" {
+			fmt.Printf("driver restart %d after job %d: %v\n%s\n", restarts, last+1, werr, vf.Trunc(se.String(), 1500))
+		}
 		if ee, ok := werr.(*exec.ExitError); ok && ee.ExitCode() == 7 {
 			from = last + 1
 			continue
